@@ -30,8 +30,9 @@ class Node(object):
 
 
 class CFG(object):
-    def __init__(self, fn):
+    def __init__(self, fn, value_control=True):
         self.fn = fn
+        self.value_control = value_control
         self.nodes = []
         self.entry = self._new('entry')
         self.exit = self._new('exit')
@@ -94,7 +95,7 @@ class CFG(object):
         if cur is None:
             return None
         top = owner if owner is not None else e
-        if e is None or not self._has_control(e):
+        if e is None or not self.value_control or not self._has_control(e):
             return self._seq(cur, self._leaf(top))
         # Evaluate the controlling sub-expressions first (in source order), then
         # the owning statement.  Facts learned on the edges hold for the operands
@@ -167,7 +168,7 @@ class CFG(object):
             n = self._seq(cur, self._new('cond', x))
             self._edge(n, t if x.get('value') else f, 'T' if x.get('value') else 'F')
             return
-        if self._has_control(x):
+        if self.value_control and self._has_control(x):
             cur = self._value_ctl(x, cur)
         n = self._seq(cur, self._new('cond', x))
         self._edge(n, t, 'T')
@@ -211,7 +212,7 @@ class CFG(object):
             if d.get('kind') != 'VarDecl':
                 continue
             init = [c for c in kids(d)]
-            if init and self._has_control(init[-1]):
+            if init and self.value_control and self._has_control(init[-1]):
                 cur = self._value(init[-1], cur, owner=d)
             else:
                 cur = self._seq(cur, self._leaf(d))
@@ -219,7 +220,7 @@ class CFG(object):
 
     def _s_ReturnStmt(self, s, cur):
         ks = kids(s)
-        if ks and self._has_control(ks[0]):
+        if ks and self.value_control and self._has_control(ks[0]):
             cur = self._value_ctl(ks[0], cur)
         n = self._seq(cur, self._leaf(s))
         self.returns.append(n)
@@ -363,7 +364,7 @@ class CFG(object):
             cur = self._stmt(p[i], cur)
             i += 1
         cond, body = p[i], p[i + 1]
-        if self._has_control(cond):
+        if self.value_control and self._has_control(cond):
             cur = self._value_ctl(cond, cur)
         sw = self._seq(cur, self._new('switch', cond, info={'default': False, 'stmt': s}))
         brk = self._new('join')
